@@ -111,6 +111,29 @@ PROPS = {
                                             K("k3::S-MacroUseInternal-after-expr")],
         ["BaseTemplate.render exception flow and create_formatted_exception (pending)",
          "ExceptionFormatter record order (pending)"]),
+    "C03": {
+        "technique": TECH + "; REGEX-STRUCT (facts about the lexer/dissection patterns proved on their "
+                     "parse trees)",
+        "level_text": "For EVERY input string the lexer's token stream tiles the input (pattern totality "
+                      "proved structurally: XML_SPE = A|B with complementary first-character sets and a "
+                      "nullable tail); the attribute and tag-head patterns are proved to put every consumed "
+                      "character into exactly one named field; the end-tag emitter is proved to emit exactly "
+                      "prefix+name+suffix; token-deriving primitives preserve source positions (C11 units).",
+        "level_note": "Trusted: CPython's re (a match is found whenever one exists, finditer resumes at the "
+                      "previous match end, group/span semantics). The agreement of the two regex layers "
+                      "(every token classified as a tag is fully consumed by match_tag) and the start-tag / "
+                      "attribute emitters are covered only by the bounded stand-in B-VERBATIM (labelled "
+                      "bounded, not counted).",
+        "units": [U('pyvc.regexstruct', 'total', 're_xml_spe.total'),
+                  U('pyvc.regexstruct', 'tiling', 'parser.tiling'),
+                  K("compiler.py::Compiler.visit_End"),
+                  K("tokenize.py::Token.__getitem__"), K("tokenize.py::Token.__add__"),
+                  U('bounded.units', 'verbatim', 'B-VERBATIM')],
+        "not_decided": ["match_tag field contracts, visit_Start / visit_Attribute(static) emitters (bounded only)",
+                        "CR/CRLF normalisation in PageTemplate.parse (pending)",
+                        "ElementParser child order"],
+        "assumptions": COMMON_ASSUMPTIONS + ["re engine semantics"],
+    },
     "C14": {
         "technique": TECH + "; frame and ordering clauses decided on the AST of the real functions",
         "level_text": "Per-call frame contracts: render()/include()/Macros write nothing to the template, "
